@@ -520,6 +520,27 @@ def rule_R2_evaluated(ctx, prj: Project) -> bool:
                           [t for aa, kw in lab.printed for t in deep_strs(list(aa))] + ["<call>" for aa, kw in lab.printed if not aa]
                 printed = [t for t in printed if isinstance(t, str)]
                 rows.append((quiet, hard, unm, code, bool(printed)))
+    # several files in one run, two of them with the same base name in different directories: every file's long functions count
+    lab = W.Lab(prj, W.ROOT, deep=True)
+    lab.measured = [measurement(45, "h"), measurement(90, "u")]
+    files = ["a.py", "sub/deep/a.py", "sub/s.py"]
+    try:
+        it = MiniInterp(prj, lab.hook, max_steps=600000, max_depth=60)
+        lab.interp = it
+        it.call(fi, [[PathV(x) for x in files], False], {})
+    except PyRaise as e:
+        if e.name != "Exit":
+            raise Unknown(f"check_command raises {e.name}")
+    cr = lab.check_result
+    adds = [c for c in lab.calls if c[0] == "add"]
+    if isinstance(cr, Sym) and isinstance(cr.fields.get("hard_to_maintain"), int):
+        got = (cr.fields.get("hard_to_maintain"), cr.fields.get("unmaintainable"))
+        if got != (len(files), len(files)) or len(adds) != len(files):
+            ctx.viol("R2", "check_command/files-counted", fi.site(), f"checking {files} (each with one function of 45 and one of 90 lines) counts "
+                                                                     f"{got[0]} hard-to-maintain and {got[1]} unmaintainable functions from {len(adds)} file(s); required {len(files)} of each: "
+                                                                     f"a file's functions are dropped when another checked file has the same name in another directory")
+        else:
+            ctx.ok("R2", fi.site(), f"three files, two with the same base name: {got[0]} + {got[1]} functions counted")
     bad_exit = bad_report = None
     for quiet, hard, unm, code, reported in rows:
         row = f"quiet={quiet} hard={hard} unm={unm}"
